@@ -55,10 +55,11 @@ CHECKS = {
           'to be that of the current definition in every tested history.  ConeCyl (calc_k0, calc_fext, _calc_linear_matrices, calc_kT, calc_fint) is put through '
           'the same three clauses with kernel stubs that carry their arguments (attributes r2, H, alphadeg, plyt, Fc, P).  PanelAssembly (calc_k0, calc_kG0, '
           'calc_kM, get_k0_conn with and without finalize) and StiffPanelBay (calc_k0, calc_kG0, calc_kM, calc_kA, get_size; skin cut in two, one 2-D blade stiffener '
-          'built by the real add_* methods) are put through the first-request and order clauses for all ordered pairs.'),
+          'built by the real add_* methods) are put through the first-request and order clauses for all ordered pairs (get_k0_conn also with an explicit other connectivity) '
+          'and through the change clause (panel laminate, interface position / skin and flange laminate, density).'),
     design_ref='DESIGN.md section 4 (C20)',
     note=('histories of length <= 3 over the listed methods (bounded in length, symbolic in all data); kernels/field functions assumed pure (thread-count independence of the compiled field wrappers is proved in C11); '
-          'change clause for assemblies/bays and plotting are not covered; 21 known findings (ConeCyl keeps derived data and cached matrices of the first evaluation), 5 fixed defects'),
+          'plotting is not covered; 21 known findings (ConeCyl keeps derived data and cached matrices of the first evaluation), 6 fixed defects'),
     technique='effect contracts + symbolic execution; structural comparison of result terms'),
  'C12': dict(
     category='proof',
@@ -156,8 +157,10 @@ CHECKS = {
           'is the point kernel\'s value at (xs[k], ys[k]) -- an expression without num_cores or k\'s position, hence independent of thread count, point count and '
           'order; each iteration writes only the row of its own loop index; cfw/cfwx/cfwy of the w-only module are proved like the main kernels.  StiffPanelBay.uvw_skin / '
           'uvw_stiffener are executed symbolically for 1..3 stiffeners in 8 orders of kinds: each component is evaluated with its own range of the bay\'s amplitude '
-          'vector (the range the matrices use) and its own attributes (1 fixed defect).'),
-    design_ref='DESIGN.md section 4 (C11), 10.8',
+          'vector (the range the matrices use) and its own attributes (1 fixed defect).  Kernel precondition derived from the extracted source: a strided '
+          'memoryview parameter whose address is taken (&c[0]) must be C-contiguous; amplitude vectors given to public methods have arbitrary layout, '
+          'np.ascontiguousarray / np.array establish contiguity, np.asarray does not.'),
+    design_ref='DESIGN.md section 4 (C11), 10.8, 10.20',
     note=('real arithmetic; numpy hstack/reshape/ravel/slice on C-contiguous arrays modelled as row-major index maps (assumption), in the Python layer they run '
           'natively on symbolic object arrays (A4); prange(n) is taken to visit every index once (OpenMP scheduling itself is outside the contract; the frame '
           'obligation makes the order irrelevant); Python-layer point sets are bounded (3 and 6 points); '
@@ -210,10 +213,11 @@ CHECKS = {
           'initially and across every path of the loop bodies (all interleavings of converged / diverged / too-slow / iteration-limit outcomes, '
           'modified and full Newton, line search on/off). At every report the obligations max|fext(t)-fint(c,t)|<absTOL for exactly the appended pair, '
           't strictly greater than the previous report and in (0,1], the state being a fresh copy never updated in place afterwards, are discharged; '
-          'Analysis.static dispatch is checked the same way.'),
-    design_ref='DESIGN.md section 4 (C09)',
-    note=('real arithmetic; callables pure; numpy scalar division does not raise; the line-search loop is over-approximated by havoc; termination and the '
-          'linear-problem clause are NOT proved (bounded run-time contract grid on the real driver stands in, labelled bounded); 4 known findings '
+          'Analysis.static dispatch is checked the same way.  Termination: all four loops carry ranking functions discharged at every back edge '
+          '(load steps: (1-total) + 2 inc with a ghost positive lower bound of the increment; bisection: inc; iterations and line search: counters).'),
+    design_ref='DESIGN.md section 4 (C09), 10.21',
+    note=('real arithmetic; callables pure and returning; numpy scalar division does not raise; the linear-problem clause is NOT proved '
+          '(bounded run-time contract grid on the real driver stands in, labelled bounded); 4 known findings '
           '(last load factor within 1e-3 of 1 instead of equal to 1)'),
     technique='loop invariants on the real ast, havoc-and-assume VC generation, z3 (QF_LRA/NRA)'),
  'C19': dict(
